@@ -12,7 +12,7 @@ META = {
                    'substitution md4(unicode(password)) <-> hash, and Ntlm::new / Ntlm::from_hash wire them to the same fields; (R15.3) the '
                    'temporary message used for the MIC and the final message are the same three parts with the MIC slot zeroed (16 bytes), '
                    'and mic() receives (exported session key, negotiate, challenge, authenticate) in that order; (R15.4) wiring of '
-                   'compute_response_v2 / key exchange arguments. HMAC-MD5/MD4/RC4 values (acceptance by a real server) are not decided.',
+                   'compute_response_v2 / key exchange arguments. (R15.5) names and password are encoded with str::encode_utf16 (rule R04.6); (R15.6) the RC4 used for the key exchange performs the output step in RC4 order (rule R16.6). HMAC-MD5/MD4 values (acceptance by a real server) are not decided.',
     'assumptions': ['the cryptographic primitives of the md4/md-5/hmac crates are correct', 'value-level acceptance by an MS-NLMP server is not decided'],
     'trusted_base': ['rustc nightly MIR construction', 'mirfacts exporter', 'rules/c15.py, dsl.py, sym.py, facts.py'],
 }
@@ -251,3 +251,9 @@ def run(ctx):
         ctx.check(good, 'R15.4', 'response:structure', 'compute_response_v2 returns (NTProofStr||temp, HMAC(lm key, ..)||client challenge, SessionBaseKey = HMAC(nt key, NTProofStr))',
                   cv.where(), 'compute_response_v2 no longer derives the session base key as HMAC(response_key_nt, nt_proof_str)')
         break
+
+    # ---- R15.5 / R15.6 rules shared with C04 (UTF-16 encoders) and C16 (RC4 output step), evaluated on the same facts -------------------
+    import c04
+    import c16
+    c04.rule_utf16(ctx, 'R15.5')
+    ctx.include(c16.run, ('R16.6', 'R16.5'), 'R15.6')
